@@ -1,10 +1,56 @@
 package tcp
 
 import (
+	"errors"
 	"io"
+	"net"
 
 	gkm "github.com/go-kit/kit/metrics"
 )
+
+var errNoHalfClose = errors.New("tcp: connection does not support half-close")
+
+// closeWrite shuts down the writing side of c so that the peer
+// sees the end of the stream but can still send data.
+func closeWrite(c net.Conn) error {
+	if cw, ok := c.(interface{ CloseWrite() error }); ok {
+		return cw.CloseWrite()
+	}
+	return errNoHalfClose
+}
+
+// tunnel copies data between the client connection in and the upstream
+// connection out until both directions are done. The client's data is
+// read from inr which may be in itself or a buffered reader on top of it.
+//
+// When one side ends its stream the end is passed on by closing only
+// the writing side of the other connection (TCP half-close). The
+// other direction keeps going until that side is finished as well, e.g.
+// a client which shuts down its writing side after sending a request
+// still gets the response. If a direction fails, or the end of a stream
+// cannot be passed on since the connection does not support half-close,
+// the tunnel ends right away and the caller closes both connections.
+func tunnel(in net.Conn, inr io.Reader, out net.Conn, rx, tx gkm.Counter) error {
+	errc := make(chan error, 2)
+	cp := func(dst net.Conn, src io.Reader, c gkm.Counter) {
+		err := copyBuffer(dst, src, c)
+		if err == nil {
+			err = closeWrite(dst)
+		}
+		errc <- err
+	}
+
+	go cp(in, out, rx)
+	go cp(out, inr, tx)
+	err := <-errc
+	if err == nil {
+		err = <-errc
+	}
+	if err == errNoHalfClose {
+		return nil
+	}
+	return err
+}
 
 // copyBuffer is an adapted version of io.copyBuffer which updates a
 // counter instead of returning the total bytes written.
